@@ -636,6 +636,80 @@ def _store(repo, rep):
     rep.check(not others, "R15.2", "chameleon.*", "ModuleLoader is the only "
               "code in the package that creates or renames files",
               construct="other-writers", detail=str(others))
+    # ... and the only one that changes sys.modules; the template reads a
+    # stored module's namespace without taking anything out of it
+    MUT = ("pop", "popitem", "clear", "update", "setdefault")
+    mods_w = []
+    for q, g in repo.funcs.items():
+        for n in ast.walk(g.node):
+            hit = None
+            if isinstance(n, ast.Call) and isinstance(
+                    n.func, ast.Attribute) and n.func.attr in MUT and \
+                    src(n.func.value) == "sys.modules":
+                hit = src(n)[:50]
+            elif isinstance(n, (ast.Assign, ast.Delete)):
+                for t_ in n.targets:
+                    if isinstance(t_, ast.Subscript) and \
+                            src(t_.value) == "sys.modules":
+                        hit = src(t_)[:50]
+            if hit and not q.startswith(LD + "ModuleLoader."):
+                mods_w.append((q, hit))
+    rep.check(not mods_w, "R15.3", "chameleon.*", "sys.modules is changed "
+              "by ModuleLoader only (a template that removes the entry it "
+              "looks at breaks the next lookup, also of another thread)",
+              construct="sys-modules-writers", detail=str(mods_w))
+    ck_ = repo.func(BT + "_cook")
+    taken = [src(n)[:50] for n in ast.walk(ck_.node)
+             if isinstance(n, ast.Call) and isinstance(n.func, ast.Attribute)
+             and n.func.attr in MUT + ("__delitem__",)
+             and src(n.func.value) == "cooked"]
+    taken += [src(t_)[:50] for n in ast.walk(ck_.node)
+              if isinstance(n, (ast.Assign, ast.Delete)) for t_ in n.targets
+              if isinstance(t_, ast.Subscript)
+              and src(t_.value) == "cooked"]
+    rep.check(not taken, "R15.3", ck_.qualname, "the namespace of a stored "
+              "module (shared by every template with that key) is read, "
+              "never changed", construct="cooked-read-only",
+              where=L.where(ck_), detail=str(taken))
+    # the configured cache directory is never removed: the loader's remove
+    # flag is raised only for the scratch directory it made itself
+    mk = repo.func("chameleon.template._make_module_loader")
+    okr = True
+    rdetail = []
+    n_paths = 0
+    for path in P.enum_paths(mk.node.body):
+        conds = [(src(e[1]), e[2]) for e in path if e[0] == "cond"]
+        val = None
+        for e in path:
+            if e[0] == "assign" and e[1] == "remove":
+                val = e[2]
+        n_paths += 1
+        own = any(e[0] == "assign" and "mkdtemp(" in src(e[2]) for e in path)
+        flag = isinstance(val, ast.Constant) and val.value is True
+        if flag != own:
+            okr = False
+            rdetail.append("remove=%s on the path [%s]" % (
+                src(val) if val is not None else "?",
+                "; ".join("%s=%s" % c for c in conds)))
+    rep.check(okr and n_paths >= 2, "R15.2", mk.qualname, "the loader "
+              "removes its directory on exit only if it created it "
+              "(tempfile.mkdtemp): a configured cache directory stays",
+              construct="remove-own-dir-only", where=L.where(mk),
+              detail="; ".join(rdetail))
+    # the installed versions enter the key as they are (a package without
+    # a version as '')
+    gv = repo.func("chameleon.template.get_package_versions")
+    calls = [n for n in ast.walk(gv.node) if isinstance(n, ast.Call)
+             and src(n.func) == "safe_get_package_version"]
+    okv = bool(calls)
+    for c in calls:
+        par = getattr(c, "_parent", None)
+        if isinstance(par, ast.BoolOp) and not (
+                isinstance(par.op, ast.Or) and par.values[0] is c):
+            okv = False
+    rep.check(okv, "R15.1", gv.qualname, "each distribution contributes its "
+              "version to the key (missing: '')",
+              construct="versions-in-key", where=L.where(gv))
     # name derivation: final name is base + '.py' inside self.path
     t = L.text(f.node)
     rep.check("name = os.path.join(self.path, base + '.py')" in t, "R15.2",
